@@ -56,9 +56,19 @@ def raise_base():
     raise KeyboardInterrupt("kb")
 
 
+class NoText:
+    """Evaluates fine, cannot be turned into text: as a condition it is not met (and nothing else is affected)."""
+
+    def __str__(self):
+        raise RuntimeError("no text form")
+
+    __repr__ = __str__
+
+
 class Obj:
     def __init__(self, ok):
         self.ok = ok
+        self.silent = NoText()
         self.tags = ["t", ok]
         self.problem = KeyError("kept for later", ok)
 
@@ -99,7 +109,9 @@ CONDS_FN = ['"yes"[1:2]', '""', '","', 'name[5:]',    # text that is not one of 
             'format == "csv"', 'format != "csv"', 'id > 70 + v', 'len(filter) == v',
             '(lambda: GLOBAL_LIMIT)() < v', 'any(x == GLOBAL_LIMIT for x in (v, 1))',
             # a name bound inside one expression is that expression's own: the next one sees the frame again
-            '(v := v + 100) > 102', '(name := "ann") in NAMES']
+            '(v := v + 100) > 102', '(name := "ann") in NAMES',
+            # a condition whose value has no text form: not met, and the tracepoints next to it are judged on their own
+            'obj.silent', 'obj.silent']
 CONDS_MOD = ['GLOBAL_LIMIT == 3', 'GLOBAL_LIMIT > 5', 'helper is not None', 'len(NAMES) == 3', 'nope_zz', '',
              'uuid is not None', '"MOD_MARK" in dir()', 'format == "csv"', 'id < 5']
 EXPRS = ['ValueError("kept", v)', 'obj.problem',      # expressions whose *value* is an exception object (nothing is raised)
